@@ -6,12 +6,13 @@ const char *ntC05 = "non-trivial = history with a declaration (declp/decla/pcol/
 namespace {
 struct L05 : Listener {
     CaseResult &r; size_t checks = 0; bool declAfterData = false, editAfterReload = false, rateAfterFrames = false, reloaded = false;
-    bool extendOnEmpty = false;
+    bool extendOnEmpty = false, permSubmitted = false;
     std::set<size_t> gaps;      // frames left empty by an indexed add beyond the end (not 'filled' frames)
     size_t preFrames = 0;
     explicit L05(CaseResult &rr) : r(rr) {}
     void before(Interp &in, const Op &op, size_t) override {
         preFrames = in.o().data().nbFrames();
+        if ((op.code == "fsubx" || op.code == "fsub") && in.slotDev[static_cast<size_t>((op.arg(0) < 0 ? -op.arg(0) : op.arg(0)) % 4)] == "perm") permSubmitted = true;
         if ((op.code == "fsubx" || op.code == "fsub") && in.o().data().nbFrames() == 0 && (op.arg(1) < 0 ? -op.arg(1) : op.arg(1)) % 3 == 2) extendOnEmpty = true;
     }
     void after(Interp &in, const Op &op, size_t i, const Outcome &o) override {
@@ -29,6 +30,7 @@ struct L05 : Listener {
         if (!m.empty()) {
             r.fail("after op " + std::to_string(i) + " (" + op.code + (o.threw ? ", refused with " + o.cls : "") + "): " + m);
             if (extendOnEmpty) r.knownFinding = "KF-D20";
+            else if (permSubmitted && m.rfind("I5", 0) == 0) r.knownFinding = "KF-D21";
             stop = true; return;
         }
         bool hasData = !s.frames.empty();
